@@ -14,7 +14,8 @@
 // everything at once per variant; the valid trees also carry the plugin's whole testdata
 // directory. os/rpm additionally gets SQLite databases built by the harness (WAL / rollback journal,
 // 0, 1 or 3 rows with a header blob go-rpmdb cannot import) since the checkout's sqlite fixtures are stubs. Each tree is scanned with scalibr.Scanner.Scan through a real-directory root
-// and through a virtual root (ScanRoot.Path ""), DirectFS declared in both cases so that the
+// through a virtual root (ScanRoot.Path "") and through roots whose Path names a directory other
+// than the one the FS serves (an existing empty one / a missing one), DirectFS declared in both cases so that the
 // plugins that want host paths run on both, with every offline plugin the declared capability tuple admits
 // (tuples: Linux, Mac, Windows; RunningSystem declared). Oracle: the snapshot of R is identical
 // before and after Scan (tree, cwd unchanged; tmp back to its seeded state).
@@ -30,6 +31,8 @@
 // trampolines (a link to '.', a link through it that really lands on the parent, tmp, cwd or a
 // sibling whose name extends the target's name - out2, out-evil, out.bak - plus a lexical twin inside
 // the target so the link is not removed as dangling);
+// collisions (a link created through a link to '..' so that it points outside, then an entry whose
+// name is that link's real location);
 // thorough only: triples = ordered pair + a write-through of one of its links, inserted at every
 // position, every 1-2 layer split. Entry points: image.FromV1Image + CleanUp,
 // image.FromTarball + CleanUp (singles and thorough pairs only - it is FromV1Image behind
@@ -307,6 +310,40 @@ func forEachImageCase(thorough bool, fn func(idx int, c imgCase) bool) []blockIn
 							emit(imgCase{EP: "v1", Cfg: 0, Layers: layers})
 							emit(imgCase{EP: "tarball", Cfg: 0, Layers: layers})
 						}
+					}
+				}
+			}
+		}
+	}
+	end()
+
+	// name collisions: a link to "..", a second link created THROUGH it (so that it really lives
+	// one level up from where its name says and points to a sibling of the target / a missing
+	// location / an existing outside file), then an entry whose name is where that second link really
+	// is - regular file, directory, hard link, symlink, and a file below it. All orders, every 1-2
+	// layer split, all four entry points.
+	begin("collisions: link to '..', link created through it pointing outside, + an entry named like that link; all orders, 1-2 layers")
+	for _, lk := range []string{"s", "h"} {
+		l1 := entry{Name: "d/l", Kind: lk, Target: ".."}
+		for _, x := range []string{"x", "out2", "out2/keep", "out2/new", "out.bak/new", "cwd/file", "tmp/new"} {
+			l2 := entry{Name: "d/l/l2", Kind: lk, Target: "../" + x}
+			for _, e3 := range []entry{{Name: "l2", Kind: "f"}, {Name: "l2", Kind: "d"}, {Name: "l2", Kind: "h", Target: "d"}, {Name: "l2", Kind: "s", Target: "d"}, {Name: "l2/y", Kind: "f"}} {
+				base := []entry{l1, l2, e3}
+				for _, perm := range scankitPerms(3) {
+					seq := []entry{base[perm[0]], base[perm[1]], base[perm[2]]}
+					for _, c := range []int{0, 1, 2, 4} {
+						emit(imgCase{EP: "raw", Cfg: c, Layers: [][]entry{seq}})
+					}
+					for cut := 0; cut < 3; cut++ {
+						layers := [][]entry{seq}
+						if cut > 0 {
+							layers = [][]entry{seq[:cut], seq[cut:]}
+						}
+						for _, c := range []int{0, 4} {
+							emit(imgCase{EP: "squashed", Cfg: c, Layers: layers})
+						}
+						emit(imgCase{EP: "v1", Cfg: 0, Layers: layers})
+						emit(imgCase{EP: "tarball", Cfg: 0, Layers: layers})
 					}
 				}
 			}
